@@ -75,6 +75,11 @@ def evaluate(case) -> Result:
         for i in range(npeers):
             conns[i] = establish(i)
             gen[i] = 0
+        raise_for = set()
+        if not case.get("app_kind") == "threading":
+            def beh_basic(rec_):
+                return "raise" if (rec_["hbh"], rec_["e2e"]) in raise_for else "hold"
+            w.behaviour_fn = beh_basic
         reqs = []                   # dicts: peer, gen, conn, hbh, e2e, rec (requests_seen entry), submitted, fault_between
         e2e = [0x5000]
         slow_plan = case.get("slow", [3, 1, 2, 1])
@@ -136,7 +141,7 @@ def evaluate(case) -> Result:
 
         for ev in case["events"]:
             kind = ev[0]
-            if kind == "REQ":
+            if kind in ("REQ", "REQ_RAISE"):
                 _, pi, hb = ev
                 pi = pi % npeers
                 c = conns[pi]
@@ -151,17 +156,48 @@ def evaluate(case) -> Result:
                     continue
                 e2e[0] += 1
                 n_seen = len(w.requests_seen)
+                if kind == "REQ_RAISE" and not threading_app:
+                    raise_for.add((hbh, e2e[0]))
                 w.feed_msg(c, {"k": "REQ", "host": names[pi], "hbh": hbh, "e2e": e2e[0]})
                 if threading_app:
                     w.run()
                 new = [r for r in w.requests_seen[n_seen:] if r["hbh"] == hbh and r["e2e"] == e2e[0]]
                 r = {"peer": pi, "gen": gen[pi], "conn": c, "hbh": hbh, "e2e": e2e[0], "rec": new[0] if new else None,
                      "submitted": 0, "t": w.k.now, "auto": threading_app}
+                if (hbh, e2e[0]) in raise_for:
+                    # the handler kept the request and raised: the node has answered 5012 itself - that was the
+                    # request's answer; whatever the application submits later is a second answer
+                    own = [f for i_, f in frames_for(r) if i_ == c.idx]
+                    if len(own) != 1 or own[0].result_code() != 5012:
+                        res.v("C09/handler-raised/answer", f"handler raised for hbh={hbh:#x}: node transmitted {[f.brief() for f in own]}")
+                    r["submitted"] = 1
+                    r["live_at_submit"] = True
+                    res.classes.append("handler-raised-then-submit")
                 reqs.append(r)
                 if any(o["hbh"] == hbh and o is not r and not o["submitted"] for o in reqs):
                     nontrivial = True
                 if len([o for o in reqs if not o["submitted"]]) > 1:
                     nontrivial = True
+            elif kind == "SUBMIT_DIRECT" and not threading_app:
+                pool = [r for r in reqs if r["rec"] is not None and r["submitted"] == 0 and conn_live_ready(r)]
+                if not pool:
+                    continue
+                r = pool[ev[1] % len(pool)]
+                before = frames_for(r)
+                nc_ = w.node_conn_for(r["conn"])
+                app_ = w.apps[0]
+
+                def direct(r=r, nc_=nc_):
+                    ans = app_.generate_answer(r["rec"]["msg"], result_code=2001)
+                    w._fill_answer(ans, r["rec"]["msg"])
+                    w.node.send_message(nc_, ans)      # documented: "manually send a message towards a peer"
+                w.app_call(direct, name="direct-answer")
+                r["submitted"] += 1
+                r["live_at_submit"] = True
+                got = frames_for(r)[len(before):]
+                if [i_ for i_, _ in got] != [r["conn"].idx]:
+                    res.v("C09/direct-answer/not-transmitted-once", f"Node.send_message answer for hbh={r['hbh']:#x} written to {[i_ for i_, _ in got]}")
+                res.classes.append("direct-send-message")
             elif kind in ("SUBMIT", "SUBMIT_AGAIN") and not threading_app:
                 pool = [r for r in reqs if r["rec"] is not None and (r["submitted"] == 0) == (kind == "SUBMIT")]
                 if not pool:
@@ -319,8 +355,10 @@ def shard_main(shard, nshards, tier, scale):
     schedule_part(rec, shard, nshards, thorough)
     n = int((10000 if thorough else 800) * scale)
     req = st.tuples(st.just("REQ"), st.integers(0, 2), st.integers(0, 2))
-    ev = st.one_of(req, req, req, st.tuples(st.just("SUBMIT"), st.integers(0, 3)), st.tuples(st.just("SUBMIT"), st.integers(0, 3)),
-                   st.tuples(st.just("SUBMIT_AGAIN"), st.integers(0, 3)),
+    ev = st.one_of(req, req, req, st.tuples(st.just("REQ_RAISE"), st.integers(0, 2), st.integers(0, 2)),
+                   st.tuples(st.just("SUBMIT"), st.integers(0, 3)), st.tuples(st.just("SUBMIT"), st.integers(0, 3)),
+                   st.tuples(st.just("SUBMIT_DIRECT"), st.integers(0, 3)),
+                   st.tuples(st.just("SUBMIT_AGAIN"), st.integers(0, 3)), st.tuples(st.just("SUBMIT_AGAIN"), st.integers(0, 3)),
                    st.tuples(st.just("FAULT"), st.integers(0, 2), st.sampled_from(["eof", "reset", "dpr", "dpr-close", "reconnect"])),
                    st.tuples(st.just("ADV"), st.sampled_from([1, 2, 4])))
 
@@ -350,6 +388,9 @@ def shard_main(shard, nshards, tier, scale):
                 ev_ += [["SUBMIT", 0], ["SUBMIT", 0], ["SUBMIT_AGAIN", 0]]
                 jobs.append({"npeers": npeers, "app_kind": "basic", "events": ev_})
                 jobs.append({"npeers": npeers, "app_kind": "basic", "events": ev_, "out0": True, "name0": "Peer1.Example"})
+    jobs.append({"npeers": 1, "app_kind": "basic", "events": [["REQ_RAISE", 0, 0], ["SUBMIT_AGAIN", 0]]})
+    jobs.append({"npeers": 1, "app_kind": "basic", "events": [["REQ", 0, 0], ["SUBMIT_DIRECT", 0], ["SUBMIT_AGAIN", 0]]})
+    jobs.append({"npeers": 2, "app_kind": "basic", "events": [["REQ", 0, 0], ["REQ", 1, 0], ["SUBMIT_DIRECT", 1], ["SUBMIT_AGAIN", 0], ["SUBMIT", 0]]})
     for case in jobs[shard::nshards]:
         res = evaluate(case)
         res.classes.append("fault-grid")
@@ -363,7 +404,7 @@ def run(tier, scale=1.0):
     for d in hyp.pool_run(shard_main, (tier, scale)):
         rec.merge(d)
     required = {"schedule-exploration": 1, "deviations:2": 1, "npeers:3": 1, "app:threading": 1, "fault:eof": 1, "fault:reset": 1, "fault:dpr": 1,
-                "fault:reconnect": 1, "out0:True": 1, "double-submission": 1, "equal-hbh-two-conns": 1, "reqs:4": 1}
+                "fault:reconnect": 1, "handler-raised-then-submit": 1, "direct-send-message": 1, "out0:True": 1, "double-submission": 1, "equal-hbh-two-conns": 1, "reqs:4": 1}
     return finish(rec, tier=tier, level=LEVEL, rule=RULE, assumptions=ASSUME, t0=t0,
                   required_classes=required)
 
